@@ -1368,3 +1368,69 @@ func C11WrapperInput(r *rand.Rand, small bool) C11Case {
 	}
 	return C11Case{In: C11Random(r, max), Kind: "random"}
 }
+
+// ---------------------------------------------------------------------------------------------
+// framing of a (library version, Any) pair as one byte string, so that a ParseParams witness is
+// self-contained and the fuzzer can vary all of it:
+//   empty input = nil Any, library version 4
+//   In[0] = library version selector (0-7 literally, above that 100 / 2^31 / 2^32-1)
+//   In[1] = length of the type URL, In[2:2+n] = type URL, rest = value; In of length 1 = nil Any
+
+// C11FrameAny frames libVer and a.
+func C11FrameAny(libVer uint32, a *anypb.Any) []byte {
+	lv := byte(8)
+	switch {
+	case libVer < 8:
+		lv = byte(libVer)
+	case libVer == 1<<31:
+		lv = 9
+	case libVer > 1<<31:
+		lv = 10
+	}
+	if a == nil {
+		return []byte{lv}
+	}
+	u := a.TypeUrl
+	if len(u) > 255 {
+		u = u[:255]
+	}
+	out := append([]byte{lv, byte(len(u))}, u...)
+	return append(out, a.Value...)
+}
+
+// C11UnframeAny is the inverse (total: every byte string decodes).
+func C11UnframeAny(in []byte) (uint, *anypb.Any) {
+	if len(in) == 0 {
+		return 4, nil
+	}
+	lv := uint(in[0])
+	if lv >= 8 {
+		lv = []uint{100, 1 << 31, 1<<32 - 1}[(lv-8)%3]
+	}
+	if len(in) == 1 {
+		return lv, nil
+	}
+	n := int(in[1])
+	rest := in[2:]
+	if n > len(rest) {
+		n = len(rest)
+	}
+	return lv, &anypb.Any{TypeUrl: string(rest[:n]), Value: append([]byte(nil), rest[n:]...)}
+}
+
+// C11ParamsInput generates one framed (library version, Any) input for a transport whose correct
+// parameter kind is want.
+func C11ParamsInput(r *rand.Rand, want string) C11Case {
+	lv := []uint32{4, 4, 4, 3, 3, 2, 1, 0, 5, 7, 100, 1 << 31, 1<<32 - 1}[r.Intn(13)]
+	switch x := r.Intn(20); {
+	case x < 13:
+		a, d := C11Any(r, want)
+		return C11Case{In: C11FrameAny(lv, a), Kind: d + "/v" + strconv.Itoa(int(lv%1000))}
+	case x < 18:
+		a, _ := C11Any(r, want)
+		o, _ := C11Any(r, want)
+		b, k := C11Mutate(r, C11FrameAny(lv, a), C11FrameAny(lv, o))
+		return C11Case{In: b, Kind: k}
+	}
+	return C11Case{In: C11Random(r, 120), Kind: "random"}
+}
